@@ -59,6 +59,11 @@ def instances(tier, seed):
             for local in ("arbitrary", "identity"):
                 out.append(dict(op="sweep", method=method, local=local, kinds=kinds, parents=list(par), counts=list(cnt),
                                 label="sweep %s local=%s parents=%s counts=%s" % (method, local, list(par), list(cnt)), key="sweep/%s" % method))
+    # per-node bond limits in the two-site scheme: each bond must be truncated with the limit of ITS OWN node
+    for par, cnt in ([((0, 0), (1, 1, 1)), ((0, 1), (1, 1, 1))] + ([((0, 1, 1), (1, 0, 1, 1))] if tier == "thorough" else [])):
+        for caps in ("exact", "tight"):
+            out.append(dict(op="sweep", method="tdvp_ps2", local=("identity" if caps == "exact" else "arbitrary"), caps=caps, kinds=kinds, parents=list(par), counts=list(cnt),
+                            label="sweep tdvp_ps2 per-node bond limits (%s) parents=%s counts=%s" % (caps, list(par), list(cnt)), key="sweep/tdvp_ps2/limits"))
     return out
 
 
@@ -334,6 +339,14 @@ def h_sweep(ctx, P):
     ctx.assume(ctx.lt(0, tau), "tau > 0")
     coeff = -1j
     a.compress_config = CompressConfig(CompressCriteria.fixed, max_bonddim=64)
+    caps = None
+    if P.get("caps"):
+        # limit of node i = limit of its bond to the parent; the root's entry is unused by a correct implementation
+        if P["caps"] == "exact":
+            caps = [1] + [2] * (len(a.node_list) - 1)
+        else:
+            caps = [8] + [1] * (len(a.node_list) - 1)
+        a.compress_config.max_dims = np.array(caps)
     identity = P["local"] == "identity"
     log = []          # (kind, node index, dt)
     conds = []
@@ -398,6 +411,11 @@ def h_sweep(ctx, P):
         if undo:
             undo()
     n = len(a.node_list)
+    if caps is not None:
+        ctx.check("two-site scheme with per-node bond limits: every bond obeys the limit of its own node",
+                  all(int(nd.tensor.shape[-1]) <= caps[i] for i, nd in enumerate(res.node_list) if nd.parent is not None))
+        if P["caps"] == "tight":
+            return
     if identity:
         ctx.check("%s with the identity as local propagator returns the state it started from (gauge moves and merges are exact)" % P["method"],
                   ctx.eq(treelib.dense_ttns(res) * res.coeff, va))
